@@ -18,7 +18,6 @@ int main(int argc, char** argv) {
   { Grid g(1, EMPTY); g.add_grid_generator(grid_point(-A, 3)); std::cout << "KF2 {-1/3} rel (A = 2 mod 1): " << g.relation_with(((A - 2) %= 0) / 1) << "   (exact: IS_DISJOINT)\n"; }
   { Grid g(1, EMPTY); g.add_grid_generator(grid_point(-A, 2)); Grid h(1); h.add_congruence(((A + 1) %= 0) / 2); g.difference_assign(h);
     std::cout << "KF3 {-1/2} minus {A = -1 mod 2}: gens=[" << g.grid_generators() << "] empty=" << g.is_empty() << "   (exact: {-1/2})\n"; }
-  { Grid g(0); std::cout << "KF4 0-dim rel (4 = 0 mod 4): " << g.relation_with((Linear_Expression(4) %= 0) / 4) << "   (documented: IS_INCLUDED)\n"; }
   { Grid g(0); Coefficient fn, fd, vn, vd; bool r = g.frequency(Linear_Expression(5), fn, fd, vn, vd); std::cout << "KF5 0-dim frequency(5): " << r << " freq " << fn << "/" << fd << " val " << vn << "/" << vd << "   (exact val 5)\n"; }
   { Grid g(0); Coefficient n, d; bool m; bool r = g.maximize(Linear_Expression(3), n, d, m); std::cout << "KF6 0-dim maximize(3): " << r << " " << n << "/" << d << "   (exact 3)\n"; }
   { Grid g(1, EMPTY); g.add_grid_generator(grid_point(A, 4)); Coefficient n, d; bool m; bool r = g.maximize(-A - 3, n, d, m); std::cout << "KF7 {1/4} maximize(-A-3): " << r << " " << n << "/" << d << "   (exact -13/4)\n"; }
@@ -28,7 +27,6 @@ int main(int argc, char** argv) {
     std::cout << "KF10 {0}, preimage of A' = 2A (mod 1): gens=[" << g.grid_generators() << "]   (exact: p(0), q(A/2))\n"; }
   { Grid g(1); g.add_congruence((A %= 5) / 7); Coefficient fn, fd, vn, vd; bool r = g.frequency(-A + 4, fn, fd, vn, vd);
     std::cout << "KF12 {5 mod 7} frequency(-A+4): " << r << " freq " << fn << "/" << fd << " val " << vn << "/" << vd << "   (values -1 + 7Z: closest to zero is -1)\n"; }
-  { Grid g(0); std::cout << "KF13 0-dim rel (0 > 0): " << g.relation_with(Linear_Expression(0) > 0) << "   (documented: IS_DISJOINT)\n"; }
   { Grid g(1); g.add_congruence((Linear_Expression(5) %= 0) / 6); std::cout << "KF15 {5 = 0 mod 6} rel parameter(A): " << (g.relation_with(parameter(A)) == Poly_Gen_Relation::subsumes() ? "SUBSUMES" : "NOTHING") << "   (exact NOTHING: the grid is empty)\n"; }
   { Grid x(1, EMPTY); x.add_grid_generator(grid_point(A, 2)); x.add_grid_generator(grid_point(3*A, 2)); (void) x.relation_with(A >= 0);
     std::cout << "KF16 {1/2, 3/2} after relation_with(A >= 0): mingens=[" << x.minimized_grid_generators() << "]   (exact p(A/2), q(2A/2))\n"; }
